@@ -445,6 +445,16 @@ Definition res_Qeq (a b : res (list Q)) : Prop :=
   | _, _ => False
   end.
 
+(* two V1 data sets whose keys denote the same integers (same quasi-probabilities, same order) *)
+Definition kp_equiv (pyint0 : list ascii -> option N) (a b : key * Q) : Prop :=
+  outcome_to_int pyint0 (fst a) = outcome_to_int pyint0 (fst b) /\ snd a = snd b.
+Definition data_equiv (pyint0 : list ascii -> option N) (d d' : pdata) : Prop :=
+  match d, d' with
+  | DV1 q, DV1 q' => Forall2 (Forall2 (kp_equiv pyint0)) q q'
+  | DV2 p, DV2 p' => p = p'
+  | _, _ => False
+  end.
+
 (* V2 -> V1: shot (obs, qpd) of experiment idx becomes the integer key qpd * 2^nb + obs with
    quasi-probability 1/shots, nb = measured bits of group (idx mod #groups). *)
 Definition pack_shots (nb : nat) (shots : list (list N * list N)) : list (key * Q) :=
